@@ -4,6 +4,7 @@
 //!
 //!   hvh <property> <quick|thorough> <seed>          generate cases
 //! A replay regenerates the same stream from (property, tier, seed) and selects the case.
+mod alloc;
 mod canon;
 mod net;
 mod rng;
@@ -11,6 +12,9 @@ mod wr;
 mod registry;
 
 use std::io::{BufWriter, Write};
+
+#[global_allocator]
+static GLOBAL: alloc::Counting = alloc::Counting;
 
 #[derive(Clone, Copy, PartialEq, Eq)]
 pub enum Tier {
